@@ -39,6 +39,11 @@ TEXTS = {
                      "All 42 875 model behaviours of depth 3 (seeded sample in the quick tier), TLC-simulated behaviours of length 12-16 and long weighted walks are replayed on the REAL ElysApp; at every observation point the harness calls the real GetAssetPrice for every probed name and GetAssetPriceFromDenom for probed denoms; "
                      "TLC checks on every observed step that the stored table equals the specification's function of the table before the step (feeds write exactly the fed entries, end of block removes exactly the expired ones, nothing else changes it), that every lookup result is admitted by the reference lookup over the stored table, that only an active registered feeder's feed succeeds, and that the feeder registry changes only through the feeder's own or governance messages.",
             "note": _TB + " Known finding C16-key-collision-on-concatenated-names is matched by an exact signature evaluated in TLA+."},
+    "C04": {"technique": "TLA+ block-level batch contract (parse of settled hop chains into distinct accepted requests + exact fund-movement equation), exhaustive TLC model of the end-of-block batch over ALL pick orders, behaviours replayed on the real chain, TLC trace validation",
+            "level": "spec/elys/Batch.tla states C04 on three step kinds: a swap transaction only dry-runs and queues (no funds move, exactly one queue entry iff accepted); at end of block the user-visible token_swapped events must parse into hop chains that settle DISTINCT requests accepted in that block within their limits (exact input / at most the maximum, at least the minimum / exactly the stated output, intermediate hops to the sender, last hop to the recipient), every user balance change of the step must equal what those events say plus a non-negative rebalancing bonus to a recipient (so a dropped request changed nothing), and the queue must be empty at end of block and at the next begin-block. "
+                     "spec/mc/MC_ledger.tla (batch alphabet) queues requests and settles them at end of block in EVERY order; TLC checks the contract and all ledger invariants exhaustively (2.5e5 states quick, 1.8e6 thorough). "
+                     "Model behaviours (exhaustive to depth 3, TLC-simulated to depth 6-8) and long walks with 2-7 requests per block (same/opposite directions, two-hop routes sharing a pool, both forms, tight/impossible limits, foreign recipients, price-moving joins/exits and fee-conversion swaps in the same block) are replayed on the REAL ElysApp and every step is validated by TLC.",
+            "note": _TB},
     "C08": {"technique": "TLA+ state invariants over leveraged-LP positions + close step contract, TLC trace validation",
             "level": _lvl("C08 is the invariant pool.LeveragedLpAmount = sum of position LP amounts, position LP = shares committed at the position address, open counter = stored positions, nothing left committed at the address of a removed position; checked after every begin-block sweep, transaction and end-block of histories with opens, consolidations, partial/full closes, bot MsgClosePositions and price moves."),
             "note": _TB},
